@@ -438,12 +438,14 @@ pub const QUERY_DOCS: [&str; 3] = [
     "<r/>",
 ];
 
-pub const QUERIES: [&str; 40] = [
+pub const QUERIES: [&str; 52] = [
     "//c | //a", "//a | //c", "//e | //b | //a", "(//d | //a)[1]", "//b/* | //b", "//@y | //@x", "//a | //a", "/r/* | /r/b/*",
     "//d/preceding::* | //e", "//e/ancestor::* | //a", "//c/.. | //a/..", "//*/.. | //b/c",
     "$x", "/r/@x/..", "/..", "parent::node()", "/r/@x/parent::node()", "//processing-instruction('p')", "id('a')", "/r/a/..",
     "//@*/..", "/r/a/parent::*", "/parent::node()", "//text()/..", "//comment()/parent::node()", "//namespace::*/..",
     "position()", "last()", "/r/*[position() = last()]", "/r/*[q:x]", "/r/*[. = //zz:a]", "/r/*[zz:f()]", "//*[nosuch()]",
+    "/r/namespace::*[/r]", "//namespace::*[//a]", "/r/namespace::*[/]", "//namespace::*/..", "/r/namespace::*[count(/*) = 1]", "//*/namespace::*[(/r)[1]]",
+    "(//d)/preceding-sibling::*", "(//e)/ancestor::*", "(//e)/preceding::*", "(//c)/ancestor-or-self::*", "((//e)/ancestor::*)[last()]", "(//d)/preceding-sibling::*[1]",
     "(//*)[nosuch(1)]", "(/r/*)[q:x]", "/r/b[c[q:x]]", "/r/*[1][q:x]", "//b/*[last()][zz:a]", "count(//*[q:x])", "/r/*[$v]",
 ];
 
